@@ -52,7 +52,13 @@ def _entry_block(body, place_text):
     return best[1] if best else None
 
 
-def carryover_branch(h):
+def first_batch_path(h):
+    """the other batch assembly of the operational loop: the select! arm that received `first_msgs` from the socket
+    core (carry-over empty by the arm's guard) and tops the batch up from the pipe"""
+    return carryover_branch(h, first_path=True)
+
+
+def carryover_branch(h, first_path=False):
     prog = h.it.prog
     fn = prog.resolve_method("", ACTOR, "run_loop", None)
     clo = fn + "::{closure#0}"
@@ -60,7 +66,7 @@ def carryover_branch(h):
     dbg = _debug_places(prog, clo)
     need = ["core_carryover", "outgoing_batch", "egress_buffer", "use_owned_write", "sndhwm", "pending_vectored", "self"]
     h.check(all(n in dbg for n in need), "c01.setup.debug-places", str({n: dbg.get(n) for n in need}))
-    n_carry = 1 + h.choose(h.params.get("max_carry", 3), "carry")
+    n_carry = 1 + h.choose(h.params.get("max_carry", 3), "carry") if not first_path else 1      # first path: the message just received
     n_pipe = h.choose(h.params.get("max_pipe", 3) + 1, "pipe")
     # messages: tag i (1-based, send order); wire size symbolic
     W = 64
@@ -134,7 +140,7 @@ def carryover_branch(h):
     h.check(mm is not None, "c01.setup.actor-place")
     sf[(int(mm.group(1)) + 1) * 1000 + int(mm.group(2))] = actor
     eb = h.method("sessionx::egress_buffer::EgressBuffer", "new")
-    put("core_carryover", Seq("vecdeque", list(carry), "message::FrameBatch"))
+    put("core_carryover", Seq("vecdeque", [] if first_path else list(carry), "message::FrameBatch"))
     put("outgoing_batch", Seq("vec", [], "message::FrameBatch"))
     put("egress_buffer", eb)
     put("use_owned_write", True)
@@ -146,12 +152,41 @@ def carryover_branch(h):
         put("adaptive_throttle", Opaque("throttle"))
     coro = Ref(Cell(Agg(coro_ty, sf), "coro"), ())
     k = dbg["core_carryover"]
-    entry = _entry_block(body, f"variant#{k[2]}).{k[3]}:")
+    preset = {k[1]: coro, 2: Opaque("cx")}
+    # every local through which the body reaches the coroutine object (`(*_N) as variant#..`) points to it
+    for nm, kind in dbg.items():
+        if kind[0] == "field":
+            preset[kind[1]] = coro
+    for ln in prog.lines[prog.fn_index[clo]:prog.fn_index[clo] + 12000]:
+        for mb in re.finditer(r"\(\(\*_(\d+)\) as variant#\d+\)", ln):
+            preset[int(mb.group(1))] = coro
+        if ln.startswith("}"):
+            break
+    if first_path:
+        # entry: the `outgoing_batch.clear()` of the select! arm = the LAST Vec::<FrameBatch>::clear call in source order
+        h.check("first_msgs" in dbg, "c01.setup.first-msgs-place", str(dbg.get("first_msgs")))
+        if dbg["first_msgs"][0] == "field":
+            put("first_msgs", carry[0])
+        else:
+            preset[dbg["first_msgs"][1]] = carry[0]
+        # the arm binds `first_msgs` by moving it out of `maybe_msgs_from_core: Result<FrameBatch, _>`
+        if "maybe_msgs_from_core" in dbg and dbg["maybe_msgs_from_core"][0] == "field":
+            put("maybe_msgs_from_core", ok(carry[0]))
+        best = None
+        for bb, raw in body.blocks.items():
+            if "Vec::<message::FrameBatch>::clear(" in raw[-1][0]:
+                m4 = re.search(r"actor\.rs:(\d+):", raw[-1][1] or "")
+                line = int(m4.group(1)) if m4 else -1
+                if best is None or line > best[0]:
+                    best = (line, bb)
+        entry = best[1] if best else None
+    else:
+        entry = _entry_block(body, f"variant#{k[2]}).{k[3]}:")
     h.check(entry is not None, "c01.setup.entry-block")
     order_before = [_tag_of_batch(h, b) for b in carry + pipe]
     h.panic_role = "c01.batch"
     try:
-        h.it.run_body(body, [], start_bb=entry, preset={k[1]: coro, 2: Opaque("cx")})
+        h.it.run_body(body, [], start_bb=entry, preset=preset)
         h.check(False, "c01.setup.region-did-not-reach-the-framer")
         return
     except _Stop:
